@@ -147,7 +147,7 @@ Times(a, u) == TScal(spc, a, u)
 B_AxConjSym == InnerDefined(spc) => IP(X, Y) = CConj(IP(Y, X))
 B_AxLinear ==
   InnerDefined(spc) =>
-    \A k \in {ZIdx(i, j), 2} : \A a \in ScalSet :
+    \A k \in (IF AllV THEN {ZIdx(i, j)} ELSE {ZIdx(i, j), 2}) : \A a \in ScalSet :
        LET z == Vec(spc, k) IN
        IP(Plus(Times(a, X), Y), z) = CAdd(CMul(a, IP(X, z)), IP(Y, z))
 B_AxPositive ==
